@@ -123,10 +123,11 @@ class Acct:
         if 'p' not in d:
             if val is None:
                 val = {('v',) + site: 1} if self.is_int(d['l']) else None
-            if self.spec and d['l'] in self.carriers and is_lin(val):
-                before = env.get(('l', d['l']))
-                if is_lin(before):
+            if d['l'] in self.carriers and is_lin(val):
+                before = env.get('T')
+                if self.spec and is_lin(before) and val != before:
                     env['EV'] = env['EV'] + [('inc', site, lin_add(val, before, -1), before, val)]
+                env['T'] = val
             if val is None:
                 env.pop(('l', d['l']), None)
             else:
@@ -136,11 +137,11 @@ class Acct:
         if f is not None:
             if val is None:
                 val = {('v',) + site: 1}
-            if f == self.len_field and self.spec:
-                copied = any(is_lin(val) and env.get(('l', c)) == val for c in self.carriers)
-                if not copied:
-                    before = self.read_key(('f', f), env)
+            if f == self.len_field:
+                before = env.get('T')
+                if self.spec and not (is_lin(val) and is_lin(before) and val == before):
                     env['EV'] = env['EV'] + [('inc', site, lin_add(val, before, -1) if is_lin(val) and is_lin(before) else None, before, val)]
+                env['T'] = val
             env[('f', f)] = val
             if f == self.buf_field:
                 env['BUF'] = None
@@ -251,7 +252,7 @@ class Acct:
                 sv = self.read_key(sv[1], env)
             out = ('opt', b)
             if self.spec:
-                env['NM'] = env['NM'] + [(b, sv, self.read_key(('f', self.len_field), env) if not self.carriers else [env.get(('l', c)) for c in sorted(self.carriers)][0])]
+                env['NM'] = env['NM'] + [(b, sv, env.get('T'))]
         elif nm in ('is_some', 'is_none') and args and isinstance(args[0], tuple) and (args[0][0] == 'opt' or (args[0][0] == 'ref' and isinstance(self.read_key(args[0][1], env), tuple) and self.read_key(args[0][1], env)[0] == 'opt')):
             ov = args[0] if args[0][0] == 'opt' else self.read_key(args[0][1], env)
             out = ('issome', ov[1], nm == 'is_some')
@@ -349,7 +350,7 @@ class Acct:
         self.checked += 1
         cur = self.read_key(('f', self.len_field), env)
         buf = env.get('BUF')
-        if not self.equal(buf, cur, env['EQS']) and not any(self.equal(buf, env.get(('l', c)), env['EQS']) for c in self.carriers):
+        if not self.equal(buf, cur, env['EQS']) and not any(self.equal(buf, env.get(('l', c)), env['EQS']) for c in self.carriers) and not self.equal(buf, env.get('T'), env['EQS']):
             self.issues.append(('mismatch', b, 'at the %s the buffer holds %s bytes while %s is %s' % (what, self.show(buf), self.len_field, self.show(cur))))
 
     def at_return(self, b, env):
@@ -391,7 +392,7 @@ class Acct:
         if a.cfg.loops():
             self.issues.append(('unknown', 0, 'the function contains a loop: path-wise length accounting does not apply'))
             return self
-        env0 = {'BUF': {'L0': 1}, 'EQS': [], 'APP': {}, 'APPBASE': None, 'EV': [], 'MIN': {}, 'NM': [], 'OPT': {}, 'DEC': {}}
+        env0 = {'BUF': {'L0': 1}, 'EQS': [], 'APP': {}, 'APPBASE': None, 'EV': [], 'MIN': {}, 'NM': [], 'OPT': {}, 'DEC': {}, 'T': {'L0': 1}}
         for i in range(1, self.body['argc'] + 1):
             ty = self.body['locals'][i].get('ty', '')
             if ty.startswith('&[') or ty.startswith('&mut ['):
@@ -408,7 +409,7 @@ class Acct:
             if inits and len(ds_) >= 2:
                 for (b_, si_, st_) in a.stores_to_field(self.len_field):
                     e_ = a.flow.rvalue(st_['r'], 0)
-                    if e_[0] == 'local' and e_[1] == l_:
+                    if flowm.mentions(e_, lambda z: z[0] == 'local' and z[1] == l_):
                         self.carriers.add(l_)
         rets = set(a.cfg.returns)
         seen_issue = set()
